@@ -4,7 +4,9 @@
    numeric oracle. *)
 EXTENDS Integers, TLC, Json
 CONSTANT Tier
-Families == {"collinear", "chord", "repeated", "two-values", "equal-radii", "vertical", "circle-origin", "dyadic", "helix", "cloud"}
+\* "chord-oblique": a straight chord in a direction not aligned with the axes, z linear along it (added
+\* after seed C14-c: collinear up to rounding only, so that the exact-collinearity guard does not fire)
+Families == {"collinear", "chord", "chord-oblique", "repeated", "two-values", "equal-radii", "vertical", "circle-origin", "dyadic", "helix", "cloud"}
 Sizes == IF Tier = "quick" THEN {13, 14, 50} ELSE {3, 12, 13, 14, 50, 400, 2000}
 \* perturbation 10^e; -99 stands for exactly zero
 Exps == IF Tier = "quick" THEN {-99, -18, -9, -2} ELSE {-99, -18, -16, -12, -9, -6, -4, -2}
